@@ -42,7 +42,7 @@ func NewARP(opt int) (*ARP, error) {
 
 func (a *ARP) Len() (n uint16) {
 	n = 8
-	n += uint16(a.HWLength*2 + a.ProtoLength*2)
+	n += uint16(a.HWLength)*2 + uint16(a.ProtoLength)*2
 	return
 }
 
